@@ -186,7 +186,7 @@ func (h *hist) wspOwnURL(a *attempt, u int, path, suffix string) {
 	a.Entry, a.Cred, a.Expect = "wsp", kind, expectWord(allow)
 	h.record(a)
 	allow = allow && suffix == ""
-	url := path + suffix
+	url := h.spell(path, "path") + suffix
 	ctl, ch, err := h.sh.wspControl(url, cred)
 	if err != nil {
 		h.note(map[string]any{"op": "access", "attempt": a, "observed": "control channel refused: " + err.Error()})
@@ -278,7 +278,7 @@ func (h *hist) attemptWSP() {
 		h.machinery("the administrator's WSP control channel: %v", err)
 	}
 	defer ctl.close()
-	data, _, err := h.sh.wspDial("data", ownPath, cred)
+	data, _, err := h.sh.wspDial("data", h.spell(ownPath, "ownPath"), cred)
 	if err != nil {
 		h.note(map[string]any{"op": "access", "attempt": a, "observed": "data channel handshake refused: " + err.Error()})
 		if valid && h.m.allow(u, "pull", ownPath) {
